@@ -233,6 +233,81 @@ sys.exit(0 if ok else 1)
 '''
 
 
+TR_SNIPPET = '''
+import json, warnings, sys
+import numpy as np
+warnings.simplefilter('ignore')
+import abel
+IM = np.array(%(IM)s, dtype=float)
+ax = %(ax)r; mask = %(mask)r; meth = %(meth)r; clause = %(clause)r
+try:
+    T = abel.Transform(IM, method='hansenlaw', direction='inverse', origin='none', symmetry_axis=ax,
+                       use_quadrants=mask, symmetrize_method=meth).transform
+    raised = False
+except ValueError:
+    raised = True
+if clause == 'transform-rejects-defined':
+    ok = not raised
+elif clause == 'transform-accepts-undefined':
+    ok = raised
+else:
+    s = set(ax) if isinstance(ax, (list, tuple)) else {ax}
+    ok = (not raised) and (0 not in s or np.allclose(T, T[:, ::-1], rtol=1e-9, atol=1e-9)) \\
+        and (1 not in s or np.allclose(T, T[::-1], rtol=1e-9, atol=1e-9))
+print('clause', clause, 'holds' if ok else 'FAILS', 'for abel.Transform(symmetry_axis=%%r, use_quadrants=%%r, symmetrize_method=%%r) on shape %%r' %% (ax, mask, meth, IM.shape))
+sys.exit(0 if ok else 1)
+'''
+
+
+def search_transform(ctx, rng, budget):
+    """The same clauses observed through abel.Transform(..., symmetry_axis=...,
+    symmetrize_method=...).transform (the second observation point of the
+    property): a request leaving a quadrant undefined is rejected, every other
+    request is accepted, and the transform of the symmetrised image is
+    mirror-symmetric in the requested sense (hansenlaw acts on each quadrant row
+    by row, so it preserves the mirror relations between quadrants)."""
+    import abel
+    hits, n_eval, distinct = [], 0, set()
+
+    def mkhit(clause, IM, ax, mask, meth, what):
+        snip = TR_SNIPPET % dict(IM=json.dumps(np.asarray(IM, dtype=float).tolist()), ax=ax, mask=tuple(mask),
+                                 meth=meth, clause=clause)
+        return Hit(clause, 'C06:%s:%s:axis=%s' % (clause, meth, axkey(ax)), what, snip,
+                   dict(shape=list(IM.shape), symmetry_axis=repr(ax), use_quadrants=list(mask), method=meth))
+
+    shapes = [(5, 5), (6, 7), (7, 6), (8, 8), (9, 5), (4, 9)]
+    with np.errstate(all='ignore'):
+        for it in range(budget):
+            n, m = shapes[it % len(shapes)]
+            IM = rng.normal(size=(n, m)) * 10
+            for ax in AXES_PROPERTY:
+                for meth in METHODS:
+                    masks = MASKS if it < len(shapes) else [MASKS[rng.integers(16)], (True,) * 4]
+                    for mask in masks:
+                        n_eval += 1
+                        distinct.add(('Transform', axkey(ax), meth, mask, n % 2, m % 2))
+                        undefined = spec_undefined(ax, mask)
+                        try:
+                            T = abel.Transform(IM, method='hansenlaw', direction='inverse', origin='none',
+                                               symmetry_axis=ax, use_quadrants=mask, symmetrize_method=meth).transform
+                        except ValueError:
+                            if not undefined:
+                                hits.append(mkhit('transform-rejects-defined', IM, ax, mask, meth,
+                                                  'abel.Transform rejects a request with all output quadrants defined'))
+                            continue
+                        if undefined:
+                            hits.append(mkhit('transform-accepts-undefined', IM, ax, mask, meth,
+                                              'abel.Transform does not reject a request leaving a quadrant undefined'
+                                              + ('' if np.all(np.isfinite(T)) else ' (non-finite output)')))
+                            continue
+                        s = set(ax) if isinstance(ax, (list, tuple)) else {ax}
+                        if (0 in s and not np.allclose(T, T[:, ::-1], rtol=1e-9, atol=1e-9)) or \
+                                (1 in s and not np.allclose(T, T[::-1], rtol=1e-9, atol=1e-9)):
+                            hits.append(mkhit('transform-mirror', IM, ax, mask, meth,
+                                              'abel.Transform(...).transform is not mirror-symmetric in the requested sense'))
+    return hits, n_eval, len(distinct)
+
+
 def axkey(ax):
     return repr(ax).replace(' ', '')
 
@@ -329,10 +404,14 @@ def run(ctx):
     broken = (not pr['ok']) or bad or errors
     budget = (70 if ctx.quick else 400) * (4 if broken else 1)
     hits, n_eval, n_distinct = search(ctx, rng, budget)
+    h2, e2, d2 = search_transform(ctx, rng, (8 if ctx.quick else 60) * (3 if broken else 1))
+    hits += h2
+    n_eval += e2
+    n_distinct += d2
     ctx.cov.update(evaluations=n_eval + len(cases), distinct_nontrivial=n_distinct,
                    rule='search: random real images over shapes 2..9 x 2..9 (+4 larger), 5 symmetry_axis values of the '
                         'property, both methods, all 16 masks on the first passes then random masks; a case is distinct by '
-                        '(axis, method, mask, row parity, column parity); correspondence cases are counted in evaluations only',
+                        '(axis, method, mask, row parity, column parity); the rejection and mirror clauses are also observed through abel.Transform (hansenlaw, origin none) on 6 shapes; correspondence cases are counted in evaluations only',
                    samples=[dict(shape=list(c['IM'].shape), symmetry_axis=repr(c['ax']), use_quadrants=list(c['mask']),
                                  method=c['meth'], reorient=c['reorient'], outcome=r[0])
                             for c, r in list(zip(cases, results))[:5]],
